@@ -420,6 +420,11 @@ class Connection(ExportImport):
         # confused.
         if self._savepoint_storage is not None:
             self._abort(self._savepoint_storage.creating)
+            # New objects of a savepoint that failed half way are still
+            # in _creating, but already in the savepoint's index: disown
+            # them before _abort_savepoint() invalidates that, or they
+            # lose their state.
+            self._invalidate_creating()
             self._abort_savepoint()
         else:
             self._abort()
